@@ -36,6 +36,9 @@ WITNESS_PROJECTS = [
     ({"o": [["a", "$t(g)"], ["g", {"o": [["x", "y"]]}]]}, "fk-to-subkeys"),
     ({"o": [["a_one", "x"], ["a_other", "y"], ["a_ordinal_other", "z"]]}, "F9"),
     ({"o": [["a_one", "x"], ["a_other", "y"], ["a", "z"]]}, "plural-at-normal-key"),
+    ({"o": [["t", "T"], ["x_one", "a $t(t)"], ["x_other", "b"], ["x_one_one", "c"], ["x_one_other", "d"]]}, "F23"),
+    ({"o": [["t", "T"], ["x_one_one", "a $t(t)"], ["x_one_other", "b"], ["x_one", "c"], ["x_other", "d"]]}, "F23b"),
+    ({"o": [["t", "T"], ["g", {"o": [["x_ordinal_one", "a $t(t)"], ["x_ordinal_other", "b"], ["x_ordinal_one_one", "c"], ["x_ordinal_one_other", "d"]]}]]}, "F23c"),
 ]
 
 
